@@ -496,22 +496,8 @@ func vScenarioC18(rc *runCtx) {
 		for _, l := range append(append([]*verifsim.Link{}, x.up...), x.down...) {
 			o.profile.apply(l)
 		}
-		slowDone, slowStarted := false, false
-		slowFor := time.Duration(3000+tp.Draw("c18.slowack", 1500)) * time.Millisecond
-		slowAt := 2 + tp.Draw("c18.slowat", 6)
-		calls := 0
-		w.Disk = &verifsim.DiskFaults{OnWrite: func(call int, f *os.File) {
-			if slowStarted || !armed() || verifsim.CurProc() != x.server {
-				return
-			}
-			calls++
-			if calls >= slowAt {
-				slowStarted = true
-				rc.fault("acknowledgement-seconds-late")
-				verifsim.Sleep(slowFor)
-				slowDone = true
-			}
-		}}
+		slowDone := false
+		vLateAck(rc, x, armed, 4+tp.Draw("c18.slowat", 12), time.Duration(3000+tp.Draw("c18.slowack", 1500))*time.Millisecond, func() { slowDone = true })
 		// the pause begins right at one of the first data writes the client makes once the late acknowledgement
 		// is on its way back
 		piecesAfter, skip := 0, tp.Draw("c18.shrinkskip", 4)
@@ -687,4 +673,31 @@ func vScenarioC18(rc *runCtx) {
 	}
 	rc.res.Probes = rc.w.Probes
 	rc.res.Nontrivial = true
+}
+
+// vLateAck holds the k-th acknowledgement the server writes (after armed) back on the wire for d: it, and whatever
+// the server writes meanwhile, arrives d later. done (optional) is called when the hold is over.
+func vLateAck(rc *runCtx, x *xferWorld, armed func() bool, k int, d time.Duration, done func()) {
+	l := x.downLast()
+	n, held := 0, false
+	prev := l.OnWrite
+	l.OnWrite = func(ll *verifsim.Link, data []byte) {
+		if prev != nil {
+			prev(ll, data)
+		}
+		if held || !armed() || !bytes.HasPrefix(data, []byte("#SUCC:")) {
+			return
+		}
+		if n++; n >= k {
+			held = true
+			rc.fault("acknowledgement-seconds-late")
+			ll.StallUntil = x.w.Now() + d
+			x.w.Go("lateack.timer", nil, func() {
+				verifsim.Sleep(d)
+				if done != nil {
+					done()
+				}
+			})
+		}
+	}
 }
